@@ -167,12 +167,14 @@ def _collisions(comp, w):
 
 
 # ---------------------------------------------------------------- contextual refines basic
-KWS = ['if', 'in', 'else', 'x', 'ab', 'IF']
+KWS = ['if', 'in', 'else', 'x', 'ab', 'IF', '_1', '_2', '__']      # the last three: anonymous tokens whose derived names have no cased letter
 SKELETONS = [
     'start: stmt+\nstmt: {K0} NAME ";" | {K1} NUM ";" | NAME "=" expr ";"\n?expr: NAME | NUM | expr "+" NAME\n',
     'start: ({K0} NAME | {K1} "(" start ")" | NUM)*\n',
     'start: item ("," item)*\n?item: {K0} | {K1} NAME | NAME ":" NUM | "[" start "]"\n',
     'start: decl*\ndecl: {K0} NAME [{K1} NUM] ";"\n    | NAME NAME ";"\n',
+    # two parser states that accept the same named terminals and differ only in one keyword each
+    'start: ("(" x | "[" y)*\nx: NAME | {K0} | NUM\ny: NAME | {K1} | NUM\n',
 ]
 
 
@@ -193,7 +195,8 @@ def ctx_cases(draw):
     words = [k0, k1, k0.upper(), 'a', 'if', 'iff', 'xx', 'b', '1', '22', ';', '=', '+', ',', ':', '(', ')', '[', ']']
     names = ['a', 'iff', 'xx', 'b', k0 + 'q', 'q' + k1, k0.upper(), k0, k1, 'abc']
     stm = {0: ['K0 N ;', 'K1 D ;', 'N = N ;', 'N = D + N ;', 'N = N + N + N ;'], 1: ['K0 N', 'K1 ( K0 N )', 'D', 'K1 ( )'],
-           2: ['K0', 'K1 N', 'N : D', '[ K0 , N : D ]'], 3: ['K0 N ;', 'K0 N K1 D ;', 'N N ;']}[SKELETONS.index(sk)]
+           2: ['K0', 'K1 N', 'N : D', '[ K0 , N : D ]'], 3: ['K0 N ;', 'K0 N K1 D ;', 'N N ;'],
+           4: ['( N', '( K0', '[ N', '[ K1', '( D', '[ D']}[SKELETONS.index(sk)]
     sep = ' , ' if SKELETONS.index(sk) == 2 else ' '
     def sentence():
         parts = []
@@ -231,7 +234,7 @@ def check_ctx(case, ctx):
         if norm(tb) != norm(tc):
             raise Violation('contextual lexer gives a different tree than the basic lexer', grammar=g, text=w, basic=str(norm(tb))[:300], contextual=str(norm(tc))[:300])
         ctx.label('ctx:agree')
-        if any(k in w for k in ('if', 'in', 'else', 'ab', 'IF')):
+        if any(k in w for k in ('if', 'in', 'else', 'ab', 'IF', '_1', '_2', '__')):
             ctx.nontrivial([g, w, 'ctx'], sample={'grammar': g, 'text': w, 'clause': 'contextual refines basic'})
 
 
